@@ -537,6 +537,21 @@ def maps(ctx, lines, expect):
                     except BaseException as e:  # noqa
                         ctx.notes.append(f"map action {act} raised {e!r}")
             observe_map(ctx, qm, curves, xn, yn, f"round{rnd}:{act}", lines, expect, meta)
+        # every map ends with all its curves fitted and rated with non-default rating settings (another regressor,
+        # an in-memory training set, a feature selection): the rating map shows exactly these ratings
+        with warnings.catch_warnings():
+            warnings.simplefilter("ignore")
+            for c in curves:
+                try:
+                    c["idnt"].fit_model(model_key="hertz_para", gcf_k=1.0, range_type="absolute", range_x=(0, 0),
+                                        preprocessing=["compute_tip_position", "correct_tip_offset"])
+                    if c["idnt"].fit_properties.get("success", False):
+                        rv = c["idnt"].rate_quality(regressor="Decision Tree", training_set=ts, names=names)
+                        kk = "rating=" + ("exactly 0" if rv == 0 else ("-1" if rv == -1 else "non-trivial"))
+                        ctx.dist[kk] = ctx.dist.get(kk, 0) + 1
+                except BaseException as e:  # noqa
+                    ctx.notes.append(f"final rating of a map curve raised {e!r}")
+        observe_map(ctx, qm, curves, xn, yn, "final:all-fitted-and-rated", lines, expect, meta)
     # recorded maps: pixel placement through the scan-order core feature
     d = data_dir()
     for name in ("fmt-jpk-fd_map2x2_extracted.jpk-force-map", "fmt-jpk-fd_map1d_2016-11-07.jpk-force-map",
